@@ -13,6 +13,7 @@ import (
 
 func init() {
 	vfHarnesses["C09_ring"] = vfH_C09_ring
+	vfHarnesses["C09_ring8"] = vfH_C09_ring8
 }
 
 func vfRingRecord(i int) []byte {
@@ -42,7 +43,12 @@ func vfRingUsed(q *ReplicationBufferQueue) uint64 {
 	return n
 }
 
-func vfH_C09_ring() {
+var vfRingOps = 6
+
+func vfH_C09_ring()  { vfRingOps = 6; vfC09Ring() }
+func vfH_C09_ring8() { vfRingOps = 8; vfC09Ring() }
+
+func vfC09Ring() {
 	maxsz := uint64(128)
 	if vfChoice("grow", 2) == 1 {
 		maxsz = 256
@@ -91,7 +97,7 @@ func vfH_C09_ring() {
 		q.AddPoll(cur)
 	}
 	last := j
-	for step := 0; step < 6; step++ {
+	for step := 0; step < vfRingOps; step++ {
 		if vfChoice(vfName("op", step), 2) == 0 {
 			push(vfName("e", step))
 			continue
